@@ -26,7 +26,7 @@
      output = (words in the pool when the generator parks,
                1 if the Get returns under the round-robin schedule)        *)
 From Coq Require Import ZArith NArith List Bool Arith.
-From Mpc Require Import Gen.Consts Base.Sx Base.Codec Circuit.Circuit Circuit.RunC01 Gmw.Gmw Gmw.Pool Gmw.PoolSync.
+From Mpc Require Import Gen.Consts Base.Sx Base.Codec Circuit.Circuit Circuit.RunC01 Gmw.Gmw Gmw.Pool Gmw.PoolSync Gmw.GmwReuse.
 Import ListNotations.
 Local Open Scope nat_scope.
 
@@ -103,10 +103,32 @@ Definition run_sync (need : nat) : sx :=
 Definition run_levels (c : circuit) : sx :=
   SL [ ofLnat (gate_levels c); ofnat (num_levels c) ].
 
+(* mode 4: a sequence of Network.Run calls on one connected network:
+   input  = (4 n jobs batches pools), jobs = ((dims gates isz inputs rnd) ...),
+            batches / pools as in mode 0 (triples dealt by the model)
+   output = ((every party's output bits) per run, (plain evaluation) per run) *)
+Definition job_of_sx (s : sx) : job :=
+  mkJob (circuit_of_sx (nthx 0 s) (nthx 1 s)) (getLnat (nthx 2 s)) (getLLB (nthx 3 s)) (rnd_of_sx (nthx 4 s)).
+
+Definition run_reuse (inp : sx) : sx :=
+  let n := getnat (nthx 1 inp) in
+  let jobs := map job_of_sx (getL (nthx 2 inp)) in
+  if negb (forallb (fun j => wf (jc j) && ssa (jc j) && levels_in_range (jc j)) jobs) then sx_err 1 else
+  let dealt := map (deal_of_sx n) (getL (nthx 3 inp)) in
+  let per_party := transpose_batches n dealt in
+  let pools := map (fun pb => pool_of_sx (fst pb) (snd pb)) (combine per_party (getL (nthx 4 inp))) in
+  match run_seq jobs (fresh pools) with
+  | None => sx_err 2
+  | Some outs =>
+      SL [ SL (map (fun o => SL (map ofLB o)) outs);
+           SL (map (fun j => ofLB (eval_plain (jc j) (concat (jinputs j)))) jobs) ]
+  end.
+
 Definition run_c10 (inp : sx) : sx :=
   let mode := getnat (nthx 0 inp) in
   if mode =? 2 then run_sync (getnat (nthx 1 inp)) else
   if mode =? 3 then run_levels (circuit_of_sx (nthx 1 inp) (nthx 2 inp)) else
+  if mode =? 4 then run_reuse inp else
   let c := circuit_of_sx (nthx 1 inp) (nthx 2 inp) in
   let isz := getLnat (nthx 3 inp) in
   let n := length isz in
